@@ -171,6 +171,9 @@ package types
 
 //@ func (Message).HasField
 //@   safety[C02]
+//@   requires m.table.data <= len(m.bytes)
+//@   ensures[C16] !m.table.big && result ==> exists k :: 0 <= k && k < len(m.table.table) / 3 && smallTag(mem(m.table.table), lo(m.table.table), k) == tag && smallOff(mem(m.table.table), lo(m.table.table), k) <= m.table.data
+//@   ensures[C16] m.table.big && result ==> exists k :: 0 <= k && k < len(m.table.table) / 6 && bigTag(mem(m.table.table), lo(m.table.table), k) == tag && bigOff(mem(m.table.table), lo(m.table.table), k) <= m.table.data
 //@   noalloc[C17]
 
 // ---- thin accessors (generated by /verif/tools/gen_types_contracts.py)
